@@ -43,6 +43,9 @@ CLAIMED = {
  "C11": ("effects", "interprocedural ownership/effect analysis over go/ssa: type-partitioned abstract objects (root, cell type), summaries (may-write, may-return, stores) iterated to a least fixpoint, class-hierarchy resolution of interface and function-value calls, library axiom table", "DESIGN.md 4/C11",
          "Static decision of the property itself up to the abstraction: for every operation in the derived table (110 functions today, incl. the 16 named by the property) no write executed by the operation or anything it calls - stores, append into spare capacity, copy, library mutators, writes through sub-slices - can land in memory reachable from its arguments. The analysis may report a write that cannot alias, but cannot miss one inside the repository's code.",
          "Library axiom table (pure packages, named mutators of their argument, receiver-only writers, higher-order pure functions); open-world callbacks behind Shiftable/Expandable are assumed not to write their receiver; reviewed exception (*Origin).Bytes (idempotent representation cache); no unsafe in the repository."),
+ "C12": ("traps+conserve", "trap-site obligations (compiler BCE report + guard facts + reviewed shape table) on gts.Repair, and structural rules GROUP-KEY / FORCE-SOURCE / ONLY-LOC on the syntax tree", "DESIGN.md 15/C12",
+         "Narrow static decision of three clauses of the property: Repair never indexes or slices out of range (the genuine crash on tables with a joined location was found this way and repaired), features are grouped by key AND qualifiers, forced merging is reserved for source features, and Repair works on a copy and assigns nothing but locations. Does not decide restoration, idempotence, which fragments Push merges, or the covered residues.",
+         "Six of the seven trap sites rest on the reviewed shape argument 'the index lists hold range keys of the copied table'; the one input-dependent bound (indices[:len(locs)]) is discharged by its guard."),
  "C13": ("integrity", "must-check / must-pass-through / ordering rules: typestate along go/cfg paths, error-handling idiom matching, sibling cross-check of Open vs CreateLevel, constant-factor agreement", "DESIGN.md 4/C13",
          "Static decision that cache.Open can return a nil error only after the header was read in full (INT-4), the body digest covers every byte after the header (INT-3), all three digests were compared with the right operands and no error dropped (INT-1/2), the file name binds both key digests identically in reader and writer (INT-5), the writer finalises the header last with a consistent layout (INT-6), failed finalisation removes the entry (INT-8) and replay happens only after a valid open (REPLAY). Decides the structural necessary conditions, not the byte-level enumeration of corruptions.",
          "Trusts sha1 collision resistance, compress/flate's round trip, bytes.Equal/io.Copy/os.File semantics and the file system; field and method names of cmd/cache are anchors."),
@@ -55,7 +58,6 @@ NOT_APPLICABLE = {
  "C06": "round-trip and denotation equalities over a recursive value domain; the only structural part (keyword tables) is settled by any single test; join reduction needs the meaning of each Push path (symbolic execution, a different technique family)",
  "C08": "segment-walking and offset arithmetic over runtime lengths; no clause whose truth is in the shape of the code",
  "C10": "inverse laws between the n>=0 and n<0 boundary conventions of Shift/Expand at runtime alignments: pure arithmetic over runtime coordinates",
- "C12": "regrouping/merging of runtime values; its only shape clause (no panic) needs relational index reasoning between three collections that no sound local rule discharges",
  "C17": "equality of runtime strings across lengths and line endings; the reader is width-agnostic so no writer/reader table exists to cross-check",
 }
 
